@@ -252,13 +252,13 @@ def run_plan(plan: dict) -> dict:
         dep.close()
 
 
-def _run(plan: dict, sim: sched.Sim, ch: sched.Chooser, dep: deploy.Deployment) -> dict:
+def _run(plan: dict, sim: sched.Sim, ch: sched.Chooser, dep: deploy.Deployment, cid: str = ID, post: Any = None) -> dict:
     cfg = plan["cfg"]
     kind = cfg["deployment"]
     m = model.ModelStorage()
     env = linearize.EnvState()
     mode = "threads" if len({t["proc"] for t in plan["tasks"].values()}) == 1 else "procs"
-    prefix = "%s|%s|%s|" % (ID, kind, mode)
+    prefix = "%s|%s|%s|" % (cid, kind, mode)
     procs: dict[str, Any] = {}
     for n, t in sorted(plan["tasks"].items()):
         if t["proc"] not in procs:
@@ -335,6 +335,10 @@ def _run(plan: dict, sim: sched.Sim, ch: sched.Chooser, dep: deploy.Deployment) 
                 kind_of = "torn-read"
         hist = ["%s[%s..%s] %s -> %s" % (h["task"], h["inv"], h["ret"], _short(h["op"]), _res_short(h["res"])) for h in history if h["task"] != "observer"]
         return common.result(sim, ch, "violation", prefix + kind_of + "|" + lin["why"][:160], "history:\n  " + "\n  ".join(hist) + "\ndeepest failure: " + lin["why"])
+    if post is not None:
+        r = post({"history": history, "env": env, "dep": dep, "storages": storages, "model0": m, "lin": lin, "prefix": prefix, "sim": sim, "ch": ch})
+        if r is not None:
+            return r
     return common.result(sim, ch, "ok", extra_counters={"lin_nodes": lin["nodes"], "history_ops": len(history)})
 
 
